@@ -243,4 +243,30 @@ def PData.update {V : Type} (self other : PData V) : PData V :=
 /-- `update_error_mul`: `1 - (1 - e)(1 - x)` over exact rationals -/
 def errMul (a b : Rat) : Rat := 1 - (1 - a) * (1 - b)
 
+/-! ## equality and hash as the code has them after the fixes 15423cf, 8f3ffc9, c6a0f46 -/
+
+/-- `all(a == b for a, b in zip(xs, ys))`: what `CircuitGate.__eq__` (operation sequences) and
+`Circuit.__eq__` (radixes) did on their own before the fixes -/
+def eqSeqZip {α : Type} [BEq α] (a b : List α) : Bool := (a.zip b).all (fun p => p.1 == p.2)
+
+/-- `CircuitGate.__eq__` after 8f3ffc9: `num_operations` compared first, then the zip -/
+def eqSeq {α : Type} [BEq α] (a b : List α) : Bool := a.length == b.length && eqSeqZip a b
+
+/-- `Circuit.__eq__`: equal gate-count tables (`_gate_info`), equal radix tuples (c6a0f46), then
+the zip of the two iterations.  Arguments: radixes and operations in iteration order. -/
+def countsEq (a b : List Op) : Bool :=
+  (a.map Op.gate).all (fun g => (a.map Op.gate).count g == (b.map Op.gate).count g) &&
+  (b.map Op.gate).all (fun g => (a.map Op.gate).count g == (b.map Op.gate).count g)
+def eqCircuit (ra : List Nat) (a : List Op) (rb : List Nat) (b : List Op) : Bool :=
+  countsEq a b && ra == rb && eqSeqZip a b
+
+/-- the edge set listed in sorted order (`sorted(self._edges)`) -/
+def sortEdges (l : List (Nat × Nat)) : List (Nat × Nat) := l.foldr insertPt []
+def hashEdges (n : Nat) (l : List (Nat × Nat)) : Nat :=
+  l.foldl (fun h e => 1000003 * h + 31 * e.1 + e.2 + 1) n
+/-- `CouplingGraph.__hash__` after 15423cf for a listing `l` of the edge set -/
+def graphHash (n : Nat) (l : List (Nat × Nat)) : Nat := hashEdges n (sortEdges l)
+/-- before: the hash of the listing itself (iteration order of a Python set) -/
+def graphHashOld (n : Nat) (l : List (Nat × Nat)) : Nat := hashEdges n l
+
 end BqVerif.Circ
